@@ -93,6 +93,18 @@ func VerifH_C08_Hole() {
 		{"function(", "){1}"},        // parameter list
 		{"a?", ":b"},                 // conditional
 		{"a~>", ""},                  // chain
+		// truncated inputs: the text ends inside the construct
+		{"function($x)<", ""},
+		{"function($x", ""},
+		{"\"", ""},
+		{"/", ""},
+		{"`", ""},
+		{"$f(", ""},
+		{"[", ""},
+		{"{", ""},
+		{"a[", ""},
+		{"|a|", ""},
+		{"a ? ", ""},
 	}
 	c := verifChoose(len(ctxs))
 	hole := verifString(n)
